@@ -1,8 +1,13 @@
 (* C18 - Signals: delivered at once when unblocked, deferred exactly once while blocked.
    Model: V.C18.Model (small-step, one atomic step of application.cpp per transition; [step true] = the code as it is).
    All theorems quantify over every well nested main flow o (bal 0 o), every answer list a and every schedule
-   (reach o a s: any list of decisions "step / signal d arrives", see Proofs.v).                                        *)
+   (reach o a s: any list of decisions "step / signal d arrives", see Proofs.v).
+   Section 6 (OS-level entry point): V.C18.Disp layers the dispositions signal() manipulates (Application::sigHandler's
+   ScopedSig, the installation loop of Application::main) around that model; its theorems quantify over every set of
+   numbers the environment had ignored (pre), every sequence of runs of main() with well nested flows, every answer list
+   and every schedule of OS-level arrivals and steps (oreach pre s, see ProofsDisp.v).                                  *)
 Require Import V.Lib.Base V.C18.Model V.C18.Proofs V.C18.ProofsTok V.C18.ProofsThm V.C18.ProofsRun.
+Require Import V.C18.Disp V.C18.ProofsDisp V.C18.ProofsDispThm.
 Require V.Gen.Consts_C18.
 Local Open Scope Z_scope.
 
@@ -229,7 +234,214 @@ Example ex_deferred_after_stop :
   fates s = [(1%nat, FDelivered 2)].
 Proof. split; [apply reach_exec; constructor|vm_compute; repeat split; reflexivity]. Qed.
 
-Example c18_smoke : run_case [2; 1; 3; 0; 0; 0; 1; 0; 0; 2] =
+Example c18_smoke : run_direct [2; 1; 3; 0; 0; 0; 1; 0; 0; 2] =
   [7;0;0; 8;1;0; 9;0;0; 30;1; 1;0;0; 2;1;0; 20;1; 3;1;0; 30;2; 1;1;0; 4;2;0; 5;2;0; 6;2;2; 3;1;2; 21;1; 6;1;2;
    9;0;2; 1;0;0; 2;1;0; 20;2; 3;1;0; 21;1; 6;1;0; 0;0;0].
 Proof. vm_compute. reflexivity. Qed.
+
+(* ==== 6. the OS-level entry point: Application::sigHandler / the handlers installed by Application::main ==== *)
+(* the model is written for the code as the translator finds it: signal(sig, SIG_IGN) before processSignal, an
+   unconditional signal(sig, sigHandler) in ~ScopedSig, main() keeps ignored signals ignored and restores nothing *)
+Example c18_os_code_shape :
+  Consts_C18.handler_ignores_first = true /\ Consts_C18.handler_reinstalls_always = true /\
+  Consts_C18.main_keeps_ignored = true /\ Consts_C18.main_restores_dispositions = false /\ Consts_C18.main_resets_state = true.
+Proof. repeat split; reflexivity. Qed.
+
+Theorem c18_os_model_uses_code_constants : forall s x r,
+  (hs s = mkS x PEnter :: r -> (dsp (ostep 0 s) x = DIgnore <-> Consts_C18.handler_ignores_first = true)) /\
+  (hs s = mkS x PExit :: r -> (dsp (ostep 0 s) x = DHandler <-> Consts_C18.handler_reinstalls_always = true)) /\
+  (forall d o a, is_reg x = true -> d x = DIgnore ->
+     (dsp (os_main d o a) x = DIgnore <-> Consts_C18.main_keeps_ignored = true) /\
+     (blocked (core (os_main d o a)) = 0 /\ pending (core (os_main d o a)) = 0 <-> Consts_C18.main_resets_state = true)).
+Proof.
+  intros s x r. split; [|split].
+  - intro H. unfold ostep. simpl. rewrite H. simpl. unfold upd. rewrite Z.eqb_refl. split; reflexivity.
+  - intro H. unfold ostep. simpl. rewrite H. simpl. unfold upd. rewrite Z.eqb_refl. split; reflexivity.
+  - intros d o a Hx Hd. simpl. rewrite Hx, Hd. simpl. repeat split; reflexivity.
+Qed.
+Print Assumptions c18_os_model_uses_code_constants.
+
+(* (a) In every reachable state the registered signal numbers that are ignored are exactly those the environment had
+   ignored before main() and those whose sigHandler activation is in progress (past signal(sig,SIG_IGN), before
+   signal(sig,sigHandler)); every other registered number has the handler installed - whatever blocked_ is. *)
+Theorem c18_os_dispositions : forall pre s x, oreach pre s -> is_reg x = true ->
+  (dsp s x = DIgnore <-> pre x = true \/ In x (busy (hs s))) /\
+  (dsp s x = DHandler <-> pre x = false /\ ~ In x (busy (hs s))) /\
+  dsp s x <> DDefault.
+Proof. exact os_dispositions. Qed.
+Print Assumptions c18_os_dispositions.
+
+(* the sigHandler activations: at most one per number is past its first statement; those in their processSignal call
+   are exactly the activations of the core model that are not the nested call of unblockSignals; only registered,
+   not environment-ignored numbers ever get one *)
+Theorem c18_os_handlers : forall pre s, oreach pre s ->
+  NoDup (busy (hs s)) /\
+  map h_sig (nondef (stack (core s))) = running (hs s) /\
+  (forall x, In x (running (hs s)) -> In x (busy (hs s))) /\
+  (forall x, In x (map s_sig (hs s)) -> is_reg x = true /\ pre x = false).
+Proof. exact os_handlers. Qed.
+Print Assumptions c18_os_handlers.
+
+(* (b) at quiescence (no sigHandler activation) every registered number has the handler installed *)
+Theorem c18_os_quiescent : forall pre s x,
+  oreach pre s -> is_reg x = true -> pre x = false -> hs s = [] -> dsp s x = DHandler.
+Proof. exact os_quiescent. Qed.
+Print Assumptions c18_os_quiescent.
+
+(* (c) an arrival of a registered number d that the environment did not have ignored is discarded by the OS iff a handler
+   for d is in progress; otherwise sigHandler starts and its next step is the call processSignal(d) = an arrival of the
+   core model (with d ignored from then on) *)
+Theorem c18_os_arrival : forall pre s d, oreach pre s -> is_reg d = true -> pre d = false ->
+  (In d (busy (hs s)) -> ostep d s = mkO (core s) (dsp s) (hs s) (acc s) (drp s ++ [d])) /\
+  (~ In d (busy (hs s)) ->
+     ostep d s = mkO (core s) (dsp s) (mkS d PEnter :: hs s) (acc s ++ [d]) (drp s) /\
+     let s2 := ostep 0 (ostep d s) in
+     core s2 = arrive d (core s) /\ hs s2 = mkS d PRun :: hs s /\ dsp s2 d = DIgnore /\ drp s2 = drp s).
+Proof. exact os_arrival. Qed.
+Print Assumptions c18_os_arrival.
+
+(* ... and this is the only way a signal fails to reach the application object *)
+Theorem c18_os_dropped_only_if : forall pre s d, oreach pre s -> drp (ostep d s) <> drp s ->
+  d <> 0 /\ is_reg d = true /\ (pre d = true \/ In d (busy (hs s))) /\
+  ostep d s = mkO (core s) (dsp s) (hs s) (acc s) (drp s ++ [d]).
+Proof. exact os_dropped_only_if. Qed.
+Print Assumptions c18_os_dropped_only_if.
+
+(* the application object of every OS-level reachable state is a reachable state of the core model:
+   c18_never_while_blocked ... c18_callback_continue_restores all apply to [core s] *)
+Theorem c18_os_core_reach : forall pre s, oreach pre s -> exists o a, bal 0 o = true /\ reach o a (core s).
+Proof. exact os_core_reach. Qed.
+Print Assumptions c18_os_core_reach.
+
+(* exactly once, read from the OS-level arrival: every arrival that started sigHandler is either still before its
+   processSignal call or is an arrival of the application object, and each of those is in exactly one place *)
+Theorem c18_os_exactly_once : forall pre s, oreach pre s ->
+  (forall x, count_eq x (acc s) = count_eq x (arrs (core s)) + count_eq x (entering (hs s))) /\
+  (forall i, cnt_stack i (stack (core s)) + cnt_slot i (core s) + cnt_fates i (fates (core s))
+             = (if (i <? length (arrs (core s)))%nat then 1 else 0)) /\
+  NoDup (map fst (fates (core s))) /\
+  (forall i, ~ In (i, FLost) (fates (core s))) /\
+  (forall i, In (i, FStopLost) (fates (core s)) -> 0 < stops (core s)) /\
+  (forall i x, In (i, FDelivered x) (fates (core s)) -> nth_error (arrs (core s)) i = Some x).
+Proof. exact os_exactly_once. Qed.
+Print Assumptions c18_os_exactly_once.
+
+(* immediate, read from the OS-level arrival (step level, any state): handler installed and blocked_ = 0 -> after the
+   steps of its own activation the callback has been entered with d *)
+Theorem c18_os_immediate : forall s d, d <> 0 -> is_reg d = true -> dsp s d = DHandler -> blocked (core s) = 0 ->
+  let s4 := oexec [d; 0; 0; 0] s in
+  fates (core s4) = (length (arrs (core s)), FDelivered d) :: fates (core s) /\
+  arrs (core s4) = arrs (core s) ++ [d] /\
+  stack (core s4) = mkH d (length (arrs (core s))) false HCbExit 0 :: stack (core s) /\
+  blocked (core s4) = 1 /\
+  hs s4 = mkS d PRun :: hs s /\ dsp s4 d = DIgnore /\ drp s4 = drp s /\ acc s4 = acc s ++ [d].
+Proof. exact os_immediate. Qed.
+Print Assumptions c18_os_immediate.
+
+(* "so that later signals are still handled" *)
+Theorem c18_os_later_signal_handled : forall pre s d,
+  oreach pre s -> is_reg d = true -> pre d = false -> ~ In d (busy (hs s)) -> blocked (core s) = 0 ->
+  let s4 := oexec [d; 0; 0; 0] s in
+  In (length (arrs (core s)), FDelivered d) (fates (core s4)) /\ drp s4 = drp s /\ acc s4 = acc s ++ [d] /\ oreach pre s4.
+Proof. exact os_later_signal_handled. Qed.
+Print Assumptions c18_os_later_signal_handled.
+
+Theorem c18_os_below_stable : forall d s e r,
+  hs s = e :: r -> exists top, hs (ostep d s) = top ++ r /\ (length top <= 2)%nat.
+Proof. exact os_below_stable. Qed.
+Print Assumptions c18_os_below_stable.
+
+(* the OS-level trace producer stays inside [oreach] and never runs out of fuel *)
+Theorem c18_os_run_reachable : forall pre n ds s, oreach pre s -> oreach pre (snd (orun n ds s)).
+Proof. exact orun_reach. Qed.
+Print Assumptions c18_os_run_reachable.
+
+Theorem c18_os_fuel_sufficient : forall n ds s,
+  (omeasure s + 8 * length ds < n)%nat -> orun (S n) ds s = orun n ds s.
+Proof. exact ofuel_sufficient. Qed.
+Print Assumptions c18_os_fuel_sufficient.
+
+Theorem c18_os_run_with_fuel : forall m mask n r dsp0 a (ds : list Z),
+  let c := m :: mask :: n :: r in
+  let o := decode_ops (firstn (Z.to_nat n) r) in
+  let r1 := skipn (Z.to_nat n) r in
+  let k := Z.to_nat (hd 0 r1) in
+  let r2 := skipn k (tl r1) in
+  (length ds <= length r2)%nat -> (omeasure (os_main dsp0 o a) + 8 * length ds < ofuel_of c)%nat.
+Proof. exact orun_with_fuel. Qed.
+Print Assumptions c18_os_run_with_fuel.
+
+(* ---- non-vacuity ---- *)
+Definition nopre : Z -> bool := fun _ => false.
+Definition os0 (o : list op) (a : list bool) : ost := os_main (boot nopre) o a.
+
+(* Block; signal 1 arrives through sigHandler while the application holds the block: remembered, handler re-installed
+   although blocked_ = 1 ... *)
+Example ex_os_blocked_arrival :
+  let s := oexec [0; 1; 0; 0; 0; 0; 0; 0] (os0 [Block; Unblock true] []) in
+  oreach nopre s /\ hs s = [] /\ blocked (core s) = 1 /\ pending (core s) = 1 /\
+  map (dsp s) registered = [DHandler; DHandler; DHandler] /\ acc s = [1] /\ drp s = [].
+Proof. split; [apply oreach_oexec; constructor; reflexivity|vm_compute; repeat split; reflexivity]. Qed.
+
+(* ... delivered by the release; a later arrival of the SAME number is delivered at once (its callback is running) *)
+Example ex_os_blocked_then_later :
+  let s := oexec ([0; 1; 0; 0; 0; 0; 0; 0] ++ [0; 0; 0; 0; 0; 0] ++ [1; 0; 0; 0]) (os0 [Block; Unblock true] []) in
+  oreach nopre s /\ fates (core s) = [(1%nat, FDelivered 1); (O, FDelivered 1)] /\ acc s = [1; 1] /\ drp s = [] /\
+  hs s = [mkS 1 PRun] /\ busy (hs s) = [1] /\ map (dsp s) registered = [DIgnore; DHandler; DHandler].
+Proof. split; [apply oreach_oexec; constructor; reflexivity|vm_compute; repeat split; reflexivity]. Qed.
+
+(* the hypotheses of c18_os_later_signal_handled at the state between the two deliveries *)
+Example ex_os_later_hyps :
+  let s := oexec ([0; 1; 0; 0; 0; 0; 0; 0] ++ [0; 0; 0; 0; 0; 0]) (os0 [Block; Unblock true] []) in
+  oreach nopre s /\ is_reg 1 = true /\ nopre 1 = false /\ ~ In 1 (busy (hs s)) /\ blocked (core s) = 0 /\
+  fates (core s) = [(O, FDelivered 1)].
+Proof.
+  split; [apply oreach_oexec; constructor; reflexivity|]. vm_compute. repeat split; try reflexivity. intro H; exact H.
+Qed.
+
+(* during the callback of signal 1 a second 1 is discarded by the OS, a 2 starts its own handler *)
+Example ex_os_discarded_during_handler :
+  let s := oexec [1; 0; 0; 0; 1; 2; 0] (os0 [] []) in
+  oreach nopre s /\ drp s = [1] /\ acc s = [1; 2] /\ hs s = [mkS 2 PRun; mkS 1 PRun] /\
+  map (dsp s) registered = [DIgnore; DIgnore; DHandler] /\ In 1 (busy (hs (oexec [1; 0; 0; 0] (os0 [] [])))).
+Proof. split; [apply oreach_oexec; constructor; reflexivity|vm_compute; repeat split; try reflexivity]. left. reflexivity. Qed.
+
+(* a stop answer: processSignal returns early, the destructor still re-installs the handler *)
+Example ex_os_stop_reinstalls :
+  let s := oexec [1; 0; 0; 0; 0; 0] (os0 [] [false]) in
+  oreach nopre s /\ hs s = [] /\ blocked (core s) = 1 /\ stops (core s) = 1 /\ map (dsp s) registered = [DHandler; DHandler; DHandler].
+Proof. split; [apply oreach_oexec; constructor; reflexivity|vm_compute; repeat split; reflexivity]. Qed.
+
+(* a number the environment had ignored stays ignored; a second run of main() starts from the dispositions of the first *)
+Example ex_os_environment_and_second_run :
+  let pre := fun x => x =? 2 in
+  let s1 := oexec [2; 1; 0; 0; 0; 0; 0; 0] (os_main (boot pre) [] []) in
+  let s2 := oexec [1; 0; 0; 0] (os_main (dsp s1) [Block; Unblock true] []) in
+  oreach pre s1 /\ idle s1 = true /\ drp s1 = [2] /\ acc s1 = [1] /\ oreach pre s2 /\
+  map (dsp s2) registered = [DIgnore; DIgnore; DHandler] /\ acc s2 = [1].
+Proof.
+  cbv zeta.
+  assert (H1 : oreach (fun x => x =? 2) (oexec [2; 1; 0; 0; 0; 0; 0; 0] (os_main (boot (fun x => x =? 2)) [] []))).
+  { apply oreach_oexec. constructor. reflexivity. }
+  split; [exact H1|]. split; [vm_compute; reflexivity|]. split; [vm_compute; reflexivity|]. split; [vm_compute; reflexivity|].
+  split; [|vm_compute; split; reflexivity].
+  apply oreach_oexec. apply oreach_again; [exact H1|vm_compute; reflexivity|reflexivity].
+Qed.
+
+(* an arrival interrupts sigHandler before its signal(sig, SIG_IGN): both activations of the same number are handled *)
+Example ex_os_entry_interrupted :
+  let s := oexec [1; 1; 0; 0; 0; 0; 0; 0; 0] (os0 [] []) in
+  oreach nopre s /\ acc s = [1; 1] /\ drp s = [] /\ hs s = [mkS 1 PRun] /\ arrs (core s) = [1; 1] /\
+  fates (core s) = [(O, FDelivered 1)].
+Proof. split; [apply oreach_oexec; constructor; reflexivity|vm_compute; repeat split; reflexivity]. Qed.
+
+Example c18_os_smoke : Disp.run_case [-1; 0; 2; 1; 3; 0; 0; 1; 0; 0; 0; 0; 0; 0; 0; 0; 0; 0; 1] =
+  [7;0;0;40;1;1;1; 8;1;0;40;1;1;1; 30;1; 1;1;0;40;2;1;1; 4;2;0;40;2;1;1; 5;2;0;40;2;1;1; 6;2;1;40;2;1;1;
+   8;1;1;40;1;1;1; 9;0;1;40;1;1;1; 1;0;0;40;1;1;1; 2;1;0;40;1;1;1; 20;1; 3;1;0;40;1;1;1; 21;1; 6;1;0;40;1;1;1;
+   0;0;0;40;1;1;1; 30;1; 1;0;0;40;2;1;1; 2;1;0;40;2;1;1; 20;1; 3;1;0;40;2;1;1; 21;1; 6;1;0;40;2;1;1;
+   0;0;0;40;1;1;1; 41;1;1;1].
+Proof. vm_compute. reflexivity. Qed.
+
+(* the direct-processSignal cases are unchanged *)
+Example c18_run_case_direct : forall m r, (m <? 0) = false -> Disp.run_case (m :: r) = run_direct (m :: r).
+Proof. intros m r H. unfold Disp.run_case. rewrite H. reflexivity. Qed.
